@@ -63,6 +63,9 @@ BLIND = {  # did the owning check exist, unchanged, before the change was seen?
     'b11-C10': 'yes - caught (C10.R7 loaded-statistics variant, C09.R10)',
     'b11-C11': 'yes - caught (C11.R5 add table: scope order)',
     'b11-C17': 'yes - caught (C17.R2 / C17.R12 parameter laws for all-negative ranges; C04.R7)',
+    'b14-C04': 'yes - only ANALYSIS-ERROR (array comparisons / np.all not modelled: the plan forked); modelled now, and C04.R15 runs a FULLY_CONNECTED with a zero weight channel, tiny activations and an ordinary bias: the weight scale must stay max(|min|,|max|,1e-4)/127 of the true range',
+    'b14-C11': 'yes - caught (C11.R5 one-step table of add_quantization_config: a same-operator rule with another algorithm must replace, not append)',
+    'b14-C17': 'yes - caught (C17.R2 = C04.R7: the scale is no longer the reference rational function - an extra float32 rounding inside the formula)',
     'b13-C05': 'yes - caught (C05.R10 = C03.R13 = C04.R12: the constant is stored quantized but carries no data)',
     'b13-C08': 'yes - caught (whole-pipeline simulation: plan generation raises IndexError for a FULLY_CONNECTED without a bias operand; C08.R8 = C03.R14 = C01.R16 = C02.R9)',
     'b13-C09': 'yes - MISSED (the stand-in model had no state); the calibration simulation C09.R11 now runs a stateful stand-in: a carry-over shifts the next sample unless the variables are reset per sample',
